@@ -101,6 +101,12 @@ pub struct World {
     pub wfault: WFault,
     pub write_calls: usize,
     pub flush_calls: usize,
+    /// Set when the connection wrote an absurd amount (a runaway write loop); the transport fails from then on.
+    pub flooded: bool,
+    /// Transport calls made during the current poll of a task; a poll that keeps calling the transport without
+    /// ever returning is a spin (the executor's step cap cannot see it), reported through `spun`.
+    pub calls_this_poll: u64,
+    pub spun: bool,
     pub write_failed_at: Option<usize>,
     pub writes_after_failure: usize,
     pub write_dropped: bool,
@@ -139,13 +145,26 @@ pub fn lock(w: &Shared) -> MutexGuard<'_, World> {
     w.lock().unwrap_or_else(std::sync::PoisonError::into_inner)
 }
 
+pub const SPIN_LIMIT: u64 = 2_000_000;
+
 impl World {
+    /// Called at the start of every transport call.
+    fn note_call(&mut self) {
+        self.calls_this_poll += 1;
+        if self.calls_this_poll > SPIN_LIMIT {
+            self.spun = true;
+            self.calls_this_poll = 0;
+            // unwinds through the library's frames to the executor's catch_unwind: the poll would never return
+            panic!("simulated transport: {SPIN_LIMIT} transport calls within a single poll (spin)");
+        }
+    }
+
     pub fn new(cx: Ctx, knobs: Knobs, wire: Vec<u8>, segs: Vec<Seg>) -> World {
         World {
             cx, knobs, wire, segs, next_seg: 0, sent: 0, avail: 0, read_pos: 0, peer_closed: false, close_when_done: true,
             read_waker: None, read_blocked: false, rfault: RFault::None, read_calls: 0, reads_after_mark: 0, read_dropped: false, eof_reported: false,
             log: Vec::new(), decoded: Vec::new(), decoded_upto: 0, decoded_at_read: Vec::new(), write_waker: None, write_blocked: false,
-            wfault: WFault::None, write_calls: 0, flush_calls: 0, write_failed_at: None, writes_after_failure: 0, write_dropped: false, lock_held_pending: false,
+            wfault: WFault::None, write_calls: 0, flush_calls: 0, flooded: false, calls_this_poll: 0, spun: false, write_failed_at: None, writes_after_failure: 0, write_dropped: false, lock_held_pending: false,
             end_requests: 0, replies_seen: 0, handler_log: Vec::new(), shutdown_requested_at_step: None, step: 0,
             current_poll_started_after_shutdown: false,
             owed_triggers: Vec::new(), rec_bounds: Vec::new(), suspend_violation: None, empty_buf_reads: 0, force_propagate: false, read_everything: false, idle_at_shutdown: false, read_err_kind: io::ErrorKind::ConnectionReset, read_error_fired: false, reads_after_read_error: 0, retry_failed_writes: false,
@@ -204,6 +223,7 @@ impl Drop for SimWrite {
 impl AsyncRead for SimRead {
     fn poll_read(self: Pin<&mut Self>, cx: &mut Context<'_>, buf: &mut [u8]) -> Poll<io::Result<usize>> {
         let mut w = lock(&self.0);
+        w.note_call();
         let call = w.read_calls;
         w.read_calls += 1;
         w.reads_after_mark += 1;
@@ -283,9 +303,15 @@ impl AsyncRead for SimRead {
 impl SimWrite {
     fn do_write(&self, cx: &mut Context<'_>, bufs: &[&[u8]], vectored: bool) -> Poll<io::Result<usize>> {
         let mut w = lock(&self.0);
+        w.note_call();
         let total: usize = bufs.iter().map(|b| b.len()).sum();
         let call = w.write_calls;
         w.write_calls += 1;
+        if w.log.len() > (24 << 20) {
+            // no script comes near this: a write loop that does not advance; stop it before memory runs out
+            w.flooded = true;
+            return Poll::Ready(Err(io::Error::new(io::ErrorKind::Other, "simulated transport: output limit exceeded")));
+        }
         if w.write_failed_at.is_some() {
             w.writes_after_failure += 1;
         }
@@ -362,6 +388,7 @@ impl AsyncWrite for SimWrite {
     }
     fn poll_flush(self: Pin<&mut Self>, cx: &mut Context<'_>) -> Poll<io::Result<()>> {
         let mut w = lock(&self.0);
+        w.note_call();
         let call = w.flush_calls;
         w.flush_calls += 1;
         if w.wfault == WFault::FlushErrAtCall(call) {
@@ -483,6 +510,7 @@ impl Exec {
         {
             let mut w = lock(&self.world);
             w.current_poll_started_after_shutdown = w.shutdown_requested_at_step.is_some();
+            w.calls_this_poll = 0;
         }
         let r = std::panic::catch_unwind(std::panic::AssertUnwindSafe(|| fut.as_mut().poll(&mut cx)));
         match r {
